@@ -34,3 +34,5 @@ impl EntityUID {
 #[verifier::external_body] pub fn vx_esce() -> (r: EntitiesConsistencyError) { unimplemented!() }
 impl vstd::std_specs::convert::FromSpecImpl<EntityConsistencyError> for EntitiesConsistencyError { open spec fn obeys_from_spec() -> bool { false } uninterp spec fn from_spec(v: EntityConsistencyError) -> EntitiesConsistencyError; }
 impl From<EntityConsistencyError> for EntitiesConsistencyError { #[verifier::external_body] fn from(v: EntityConsistencyError) -> (r: EntitiesConsistencyError) { unimplemented!() } }
+#[verifier::external_body] pub struct EntitiesError { _p: u8 }
+#[verifier::external_body] pub fn vx_dup(u: EntityUID) -> (r: EntitiesError) { unimplemented!() }
